@@ -29,14 +29,10 @@ func (obr *observerRunner) UpdateTableState(tableInfo *pokertable.Table) error {
 
 	obr.tableInfo = tableInfo
 
-	if !obr.systemMode {
-		// Filtering private information for observer
-		switch tableInfo.State.Status {
-		case pokertable.TableStateStatus_TableGamePlaying:
-			fallthrough
-		case pokertable.TableStateStatus_TableGameSettled:
-			tableInfo.State.GameState.AsObserver()
-		}
+	if !obr.systemMode && tableInfo.State.GameState != nil {
+		// Filtering private information for observer, whatever the table status is
+		// (a hand can be attached to opened / pausing / closed snapshots as well)
+		tableInfo.State.GameState.AsObserver()
 	}
 
 	// Emit event
